@@ -109,9 +109,12 @@ type recHandler struct {
 	sink   *[]logRec
 	attrs  []slog.Attr
 	retain bool
+	// min is the lowest enabled level (the zero value is Info; everything the
+	// scenarios with one middleware log is Info).
+	min slog.Level
 }
 
-func (h *recHandler) Enabled(context.Context, slog.Level) bool { return true }
+func (h *recHandler) Enabled(_ context.Context, l slog.Level) bool { return l >= h.min }
 
 func (h *recHandler) Handle(_ context.Context, r slog.Record) error {
 	lr := logRec{msg: r.Message, attrs: map[string]string{}}
@@ -130,7 +133,7 @@ func (h *recHandler) Handle(_ context.Context, r slog.Record) error {
 }
 
 func (h *recHandler) WithAttrs(attrs []slog.Attr) slog.Handler {
-	nh := &recHandler{sink: h.sink, retain: h.retain}
+	nh := &recHandler{sink: h.sink, retain: h.retain, min: h.min}
 	if h.retain && len(h.attrs) == 0 {
 		// "The Handler owns the slice: it may retain, modify or discard it."
 		nh.attrs = attrs
@@ -399,6 +402,184 @@ func (s *nestScenario) Exec(run func(threads ...func()) *verifsched.Exec) (out e
 	return out
 }
 
+// stackScenario: several LogMiddlewares in one chain (httputil.Wrap), each
+// with its own logger, optionally with a middleware between them that wraps
+// the ResponseWriter in a type of its own.  Every layer must log the request's
+// attributes and the code the handler set, outermost "started" first and
+// innermost "finished" first; a layer whose level is below its logger's
+// minimum logs nothing but still passes the request on.
+type stackScenario struct {
+	Kind   string  `json:"kind"`
+	Layers int     `json:"layers"`
+	Req    reqDesc `json:"req"`
+	// Mixed puts a foreign middleware between every two LogMiddlewares.
+	Mixed bool `json:"mixed"`
+	// Quiet is a bit set of the layers that log at Debug into an Info logger.
+	Quiet int `json:"quiet"`
+	// Requests is the number of requests served one after the other.
+	Requests int `json:"requests"`
+}
+
+func (s *stackScenario) Desc() any     { return s }
+func (s *stackScenario) Class() string { return "logmw-stacked" }
+
+type foreignRW struct{ http.ResponseWriter }
+
+type foreignMw struct{ order *[]string }
+
+func (m foreignMw) Wrap(h http.Handler) http.Handler {
+	return http.HandlerFunc(func(w http.ResponseWriter, r *http.Request) {
+		*m.order = append(*m.order, "foreign:in")
+		h.ServeHTTP(&foreignRW{w}, r)
+		*m.order = append(*m.order, "foreign:out")
+	})
+}
+
+func (s *stackScenario) Exec(run func(threads ...func()) *verifsched.Exec) (out e3.Outcome) {
+	sinks := make([][]logRec, s.Layers)
+	var order []string
+	var mws []httputil.Middleware
+	for i := 0; i < s.Layers; i++ {
+		lvl := slog.LevelInfo
+		if s.Quiet&(1<<i) != 0 {
+			lvl = slog.LevelDebug
+		}
+
+		i := i
+		logger := slog.New(&orderHandler{recHandler: recHandler{sink: &sinks[i]}, order: &order, tag: fmt.Sprintf("L%d", i)})
+		mws = append(mws, httputil.NewLogMiddleware(logger, lvl))
+		if s.Mixed && i+1 < s.Layers {
+			mws = append(mws, foreignMw{order: &order})
+		}
+	}
+
+	var viols []e3.Viol
+	inner := http.HandlerFunc(func(w http.ResponseWriter, r *http.Request) {
+		order = append(order, "handler")
+		if l, ok := slogutil.LoggerFromContext(r.Context()); ok {
+			l.Info("inner")
+		} else {
+			viols = append(viols, e3.Viol{Kind: "no-context-logger", What: "the handler finds no logger in the request context"})
+		}
+
+		if s.Req.Early != 0 {
+			w.WriteHeader(s.Req.Early)
+		}
+
+		if s.Req.Code != 0 {
+			w.WriteHeader(s.Req.Code)
+		}
+
+		if s.Req.Body {
+			_, _ = io.WriteString(w, "resp")
+		}
+	})
+	h := httputil.Wrap(inner, mws...)
+	wantCode := s.Req.Code
+	if wantCode == 0 {
+		wantCode = 200
+	}
+
+	var clients []*clientRW
+	ex := run(func() {
+		for q := 0; q < s.Requests; q++ {
+			id := fmt.Sprintf("s%d", q)
+			req := httptest.NewRequest("M"+id, "http://host-"+id+"/p/"+id, nil)
+			req.Host = "host-" + id
+			req.RemoteAddr = "raddr-" + id
+			req.RequestURI = "/p/" + id
+			cl := &clientRW{hdr: http.Header{}}
+			clients = append(clients, cl)
+			order = append(order, "request:"+id)
+			h.ServeHTTP(cl, req)
+		}
+	})
+	out.History = strings.Join(order, " ")
+	out.Viols = viols
+	if len(ex.Panics) > 0 || ex.Livelock || ex.Deadlock {
+		return out
+	}
+
+	var wantOrder []string
+	for q := 0; q < s.Requests; q++ {
+		id := fmt.Sprintf("s%d", q)
+		wantOrder = append(wantOrder, "request:"+id)
+		var unwind []string
+		for i := 0; i < s.Layers; i++ {
+			if s.Quiet&(1<<i) == 0 {
+				wantOrder = append(wantOrder, fmt.Sprintf("L%d:started", i))
+				unwind = append(unwind, fmt.Sprintf("L%d:finished", i))
+			}
+
+			if s.Mixed && i+1 < s.Layers {
+				wantOrder = append(wantOrder, "foreign:in")
+				unwind = append(unwind, "foreign:out")
+			}
+		}
+
+		wantOrder = append(wantOrder, "handler", fmt.Sprintf("L%d:inner", s.Layers-1))
+		for i := len(unwind) - 1; i >= 0; i-- {
+			wantOrder = append(wantOrder, unwind[i])
+		}
+
+		cl := clients[q]
+		wantBody := ""
+		if s.Req.Body {
+			wantBody = "resp"
+		}
+
+		if cl.finalCode() != wantCode || cl.body.String() != wantBody {
+			out.Viols = append(out.Viols, e3.Viol{Kind: "client-response",
+				What: fmt.Sprintf("%d stacked LogMiddlewares, request %s: the client received code %d body %q, want %d %q", s.Layers, id, cl.finalCode(), cl.body.String(), wantCode, wantBody)})
+		}
+	}
+
+	if strings.Join(order, " ") != strings.Join(wantOrder, " ") {
+		out.Viols = append(out.Viols, e3.Viol{Kind: "stack-order",
+			What: fmt.Sprintf("%d stacked LogMiddlewares: order of events [%s], want [%s]", s.Layers, strings.Join(order, " "), strings.Join(wantOrder, " "))})
+	}
+
+	for i := 0; i < s.Layers; i++ {
+		for _, lr := range sinks[i] {
+			id := strings.TrimPrefix(lr.attrs["request_uri"], "/p/")
+			if lr.attrs["host"] != "host-"+id || lr.attrs["method"] != "M"+id || lr.attrs["raddr"] != "raddr-"+id || !strings.HasPrefix(id, "s") {
+				out.Viols = append(out.Viols, e3.Viol{Kind: "log-attributes",
+					What: fmt.Sprintf("%d stacked LogMiddlewares: layer %d record %q carries %v", s.Layers, i, lr.msg, lr.attrs)})
+			}
+
+			if lr.msg == "finished" && lr.attrs["code"] != fmt.Sprint(wantCode) {
+				out.Viols = append(out.Viols, e3.Viol{Kind: "finished-code",
+					What: fmt.Sprintf("%d stacked LogMiddlewares (handler sets %d): layer %d (0 = outermost) logs finished with code %s, want %d",
+						s.Layers, s.Req.Code, i, lr.attrs["code"], wantCode)})
+			}
+		}
+	}
+
+	return out
+}
+
+// orderHandler is a recHandler that also appends "<tag>:<message>" to a shared
+// order log.
+type orderHandler struct {
+	recHandler
+	order *[]string
+	tag   string
+}
+
+func (h *orderHandler) Handle(ctx context.Context, r slog.Record) error {
+	*h.order = append(*h.order, h.tag+":"+r.Message)
+
+	return h.recHandler.Handle(ctx, r)
+}
+
+func (h *orderHandler) WithAttrs(attrs []slog.Attr) slog.Handler {
+	nh := h.recHandler.WithAttrs(attrs).(*recHandler)
+
+	return &orderHandler{recHandler: *nh, order: h.order, tag: h.tag}
+}
+
+func (h *orderHandler) WithGroup(string) slog.Handler { return h }
+
 func descOf(s *scenario, id string) reqDesc {
 	return s.Progs[int(id[0]-'0')][int(id[1]-'0')]
 }
@@ -408,6 +589,15 @@ func build(desc json.RawMessage) e3.Scenario {
 		Kind string `json:"kind"`
 	}
 	_ = json.Unmarshal(desc, &k)
+	if k.Kind == "stack" {
+		ss := &stackScenario{}
+		if err := json.Unmarshal(desc, ss); err != nil {
+			runlib.EngineErrorf("scenario: %v", err)
+		}
+
+		return ss
+	}
+
 	if k.Kind == "nest" {
 		ns := &nestScenario{}
 		if err := json.Unmarshal(desc, ns); err != nil {
@@ -474,6 +664,22 @@ func main() {
 		for i, it := range items {
 			if c.Mine(int64(i)) {
 				e3.Explore(c, it.sc, it.lim)
+			}
+		}
+
+		// Several LogMiddlewares in one chain.
+		si := int64(0)
+		for _, layers := range []int{2, 3, 5} {
+			for _, rd := range kinds[:5] {
+				for _, mixed := range []bool{false, true} {
+					for _, quiet := range []int{0, 1, 2, 1<<layers - 1} {
+						si++
+						if c.Mine(si) {
+							e3.Explore(c, &stackScenario{Kind: "stack", Layers: layers, Req: rd, Mixed: mixed, Quiet: quiet, Requests: 2},
+								e3.Limits{MaxBound: 0, MaxExecs: 1000})
+						}
+					}
+				}
 			}
 		}
 
